@@ -38,20 +38,20 @@ macro "frame_split" : tactic => `(tactic| ((repeat' split) <;> first | rfl | sim
 
 /-! ### `stop` in named pieces -/
 
-def stopA (s : St) (err : Bool) : St := { s with lastErr := err, acceptor := false }
+def stopA (s : St) (err : Bool) : St := { s with lastErr := err, acceptor := false, doVerify := s.doVerify && !err }
 def stopPeers (s : St) : St := s.peers.foldl (fun s p => s.closePeer p.k) s
 def stopClear (s : St) : St := { s with dls := [], mayStart := [], idls := [], mayStartI := false }
 def stopWB (s : St) : St := if s.bf.isSome then s.writeBitfield else s
 def stopAlloc (s : St) : St :=
   if s.allocator then
-    let opened := (List.range s.cfg.flens.length).filter (fun i => !(s.cfg.fpads.getD i false))
-    if s.failOpen then
-      { s with allocator := false, gateOpen := false, sto := s.sto ++ ["openfail:" ++ fileName s.cfg (opened.headD 0)] }
-    else
+    let data := (List.range s.cfg.flens.length).filter (fun i => !(s.cfg.fpads.getD i false))
+    let failing := s.failOpen && s.failAt < data.length
+    let opened := if failing then data.take s.failAt else data
     { s with allocator := false, gateOpen := false,
              sto := s.sto ++ opened.map (fun i =>
                s!"open:{fileName s.cfg i}:{s.cfg.flens.getD i 0}:" ++
                  (if s.fileExists.getD i false then "existed" else "new")) ++
+               (if failing then ["openfail:" ++ fileName s.cfg (data.getD s.failAt 0)] else []) ++
                opened.map (fun i => "close:" ++ fileName s.cfg i),
              fileExists := (List.range s.cfg.flens.length).map (fun i => s.fileExists.getD i false || opened.contains i),
              known := (List.range s.cfg.flens.length).map (fun i => s.known.getD i false || opened.contains i),
@@ -95,7 +95,7 @@ def pwdBan (m : M) (w : WriteJob) : M :=
   onSt m (·.startDls)
 
 def pwdDone (m : M) (w : WriteJob) : M :=
-  onSt m fun s => if w.gen ≠ m.1.gen then s else { s with done := setAt s.done w.piece true }
+  onSt m fun s => { s with done := setAt s.done w.piece true }
 
 def pwdSet (m : M) (w : WriteJob) (b : List Bool) : M :=
   let m := if b.getD w.piece false then onSt m (·.crash "already have the piece") else m
@@ -125,6 +125,7 @@ theorem handlePieceWriteDone_eq (m : M) (w : WriteJob) (writeErr : Bool) :
     handlePieceWriteDone m w writeErr =
       let m := pwdReset m w
       if !w.good then pwdBan m w
+      else if w.gen ≠ m.1.gen || !m.1.loaded then m
       else if writeErr then onSt m (·.stop true)
       else
         let m := pwdDone m w
